@@ -7,13 +7,17 @@ in : `narrow <V> <cond> <0|1>`            → the narrowed type (s-expression)
      `narrowb <V> <bcond> <0|1>`          → same for a boolean combination
      `check <V> <cond> <0|1> <o>`         → `<o∈V><condOk><holds><o∈narrowed><o∈tested> D=<classes|->`
      `checkb <V> <bcond> <0|1> <o>`       → `<o∈V><condOk><holds><o∈narrowed> D=<classes|->`
+     `match <V> (<pat>…) <i>`            → type of the subject in the body of case i (i = #cases: fall-through)
+     `matchafter <V> (<pat>…)`           → type of the subject after the statement (no body leaves)
+     `matchcheck <V> (<pat>…) <o>`       → `<o∈V><patOk><o∈body of the case that runs><o∈after> <case index> D=<classes|->`
      `bool <V>`                           → Boolability name of `get_boolability`
      `verdict <V> <o>`                    → `<Boolability> <truthy o> D=<classes|->`
      `holds <cond> <o>`                   → `<condOk><holds>`
      `truthy <o>` | `len <o>`             → `0|1` | `n|-`
 out: one line per input line; `bad-op` if unparseable.
-conds: (isinst c…) (issub c…) (is O) (isnot O) (eq O) (ne O) (in O) (notin O) truthy (len op n)
+conds: (isinst c…) (issub c…) (is O) (isnot O) (eq O) (ne O) (in O) (notin O) truthy (len op n) (lenrev op n)
        (typeis T) (typeguard T) (mclass c) (ainst c) (ais O);  bconds: cond | (not B) | (and B…) | (or B…)
+pats : (msingle O) (mvalue O) (mclass c) mwild (mor P…)
 -/
 open Pya Pya.C02
 
@@ -39,6 +43,7 @@ def toCond : Sexp → Option Cond
   | .node [.atom "notin", o] => o.toObj.map .notIn
   | .atom "truthy" => some .truthy
   | .node [.atom "len", .atom op, .atom n] => do some (.len (← toOp op) (← n.toInt?))
+  | .node [.atom "lenrev", .atom op, .atom n] => do some (.lenRev (← toOp op) (← n.toInt?))
   | .node [.atom "typeis", t] => t.toTy.map .typeIs
   | .node [.atom "typeguard", t] => t.toTy.map .typeGuard
   | .node [.atom "mclass", .atom c] => c.toNat?.map .matchClass
@@ -55,6 +60,19 @@ def toBCond : Sexp → Option BCond
 def toBConds : List Sexp → Option (List BCond)
   | [] => some []
   | b :: bs => do some ((← toBCond b) :: (← toBConds bs))
+end
+
+mutual
+def toPat : Sexp → Option Pat
+  | .node [.atom "msingle", o] => o.toObj.map .singleton
+  | .node [.atom "mvalue", o] => o.toObj.map .value
+  | .node [.atom "mclass", .atom c] => c.toNat?.map .cls
+  | .atom "mwild" => some .wildcard
+  | .node (.atom "mor" :: ps) => (toPats ps).map .or
+  | _ => none
+def toPats : List Sexp → Option (List Pat)
+  | [] => some []
+  | p :: ps => do some ((← toPat p) :: (← toPats ps))
 end
 
 def showD : List String → String
@@ -87,6 +105,21 @@ def handle (line : String) : String :=
       let pol := p == "1"
       b2s (mem tbl o v) ++ b2s (condOkB tbl b o) ++ b2s (holdsB tbl b o) ++
         b2s (mem tbl o (narrowB tbl T v b pol)) ++ " D=" ++ showD (d02B tbl T v b o)
+    | _, _, _ => "bad-op"
+  | some [.atom "match", v, .node ps, .atom i] =>
+    match v.toTy, toPats ps, i.toNat? with
+    | some v, some ps, some i => (matchBody tbl T v ps i).show
+    | _, _, _ => "bad-op"
+  | some [.atom "matchafter", v, .node ps] =>
+    match v.toTy, toPats ps with
+    | some v, some ps => (matchAfter tbl T v ps).show
+    | _, _ => "bad-op"
+  | some [.atom "matchcheck", v, .node ps, o] =>
+    match v.toTy, toPats ps, o.toObj with
+    | some v, some ps, some o =>
+      let i := firstMatch tbl ps o
+      b2s (mem tbl o v) ++ b2s (Pat.okAll tbl ps o) ++ b2s (mem tbl o (matchBody tbl T v ps i)) ++
+        b2s (mem tbl o (matchAfter tbl T v ps)) ++ " " ++ toString i ++ " D=" ++ showD (dMatch tbl T v ps i o)
     | _, _, _ => "bad-op"
   | some [.atom "verdict", v, o] =>
     match v.toTy, o.toObj with
